@@ -65,11 +65,14 @@ func NewObject(payload interface{}) (*Object, error) {
 
 // IsEmpty returns true if no payload has been set yet.
 func (d *Object) IsEmpty() bool {
-	return d.payload == nil
+	return d == nil || d.payload == nil
 }
 
 // Instance returns a prepared version of the document's content.
 func (d *Object) Instance() interface{} {
+	if d == nil {
+		return nil
+	}
 	return d.payload
 }
 
@@ -77,6 +80,9 @@ func (d *Object) Instance() interface{} {
 // document payload. If the object implements the Identifiable
 // interface, it will also ensure the UUID is set.
 func (d *Object) Calculate() error {
+	if d == nil {
+		return nil
+	}
 	if ident, ok := d.payload.(Identifiable); ok {
 		id := ident.GetUUID()
 		if id.IsZero() {
@@ -99,6 +105,9 @@ func (d *Object) Validate() error {
 // ValidateWithContext checks to ensure the document has everything it needs
 // and will pass on the validation call to the payload.
 func (d *Object) ValidateWithContext(ctx context.Context) error {
+	if d == nil {
+		return nil
+	}
 	err := validation.ValidateStructWithContext(ctx, d,
 		validation.Field(&d.Schema, validation.Required),
 	)
@@ -113,6 +122,9 @@ func (d *Object) ValidateWithContext(ctx context.Context) error {
 // Correct will attempt to run the correction method on the document
 // using some of the provided options.
 func (d *Object) Correct(opts ...Option) error {
+	if d == nil {
+		return errors.New("document cannot be corrected")
+	}
 	pl, ok := d.payload.(Correctable)
 	if !ok {
 		return errors.New("document cannot be corrected")
@@ -126,6 +138,9 @@ func (d *Object) Correct(opts ...Option) error {
 // CorrectionOptionsSchema provides a schema with the correction options available
 // for the schema, if available.
 func (d *Object) CorrectionOptionsSchema() (any, error) {
+	if d == nil {
+		return nil, nil
+	}
 	pl, ok := d.payload.(Correctable)
 	if !ok {
 		return nil, nil
@@ -140,6 +155,9 @@ func (d *Object) CorrectionOptionsSchema() (any, error) {
 // Replicate will attempt to clone and run the Replicate method of the object
 // if it has one.
 func (d *Object) Replicate() error {
+	if d == nil {
+		return nil
+	}
 	obj, ok := d.payload.(Replicable)
 	if ok {
 		if err := obj.Replicate(); err != nil {
@@ -169,6 +187,9 @@ func (d *Object) insert(payload interface{}) error {
 // UUID extracts the UUID from the payload using reflection. An empty
 // id is returned if the payload does not have a UUID field.
 func (d *Object) UUID() uuid.UUID {
+	if d == nil {
+		return uuid.Empty
+	}
 	obj, ok := d.payload.(Identifiable)
 	if !ok {
 		return uuid.Empty
